@@ -220,6 +220,34 @@ fn depth_inputs(out: &mut Vec<Input>) {
     }
 }
 
+/// shared fragments without any cycle: a chain of "diamonds" (`F_i { ...L_i ...R_i }`, `L_i { ...F_{i+1} }`,
+/// `R_i { ...F_{i+1} }`). The number of spread PATHS doubles per level while the number of fragments grows linearly: a walk
+/// that forgets what it has visited (or visits per path) does not finish in any reasonable time
+fn dag_inputs(out: &mut Vec<Input>) {
+    for (kind, root_ty, leaf) in [("query", "Query", "a"), ("subscription", "Subscription", "tick"), ("mutation", "Mutation", "bump")] {
+        for depth in [12usize, 40] {
+            for via_field in [false, true] {
+                // through fields the diamonds hang below an object field (`next`), otherwise they are spread at one level
+                let schema = "type Query { a: Int next: Query }\ntype Subscription { tick: Int next: Subscription }\ntype Mutation { bump: Int next: Mutation }\nschema { query: Query mutation: Mutation subscription: Subscription }\n".to_string();
+                if via_field && kind == "subscription" {
+                    continue; // (a subscription has one root field; the diamonds are spread at the root there)
+                }
+                let mut q = format!("{} Op {{ ...F0 }}\n", kind);
+                for i in 0..depth {
+                    if via_field {
+                        q.push_str(&format!("fragment F{i} on {t} {{ {leaf} next {{ ...L{i} ...R{i} }} }}\n", i = i, t = root_ty, leaf = leaf));
+                    } else {
+                        q.push_str(&format!("fragment F{i} on {t} {{ ...L{i} ...R{i} }}\n", i = i, t = root_ty));
+                    }
+                    q.push_str(&format!("fragment L{i} on {t} {{ ...F{j} }}\nfragment R{i} on {t} {{ ...F{j} }}\n", i = i, j = i + 1, t = root_ty));
+                }
+                q.push_str(&format!("fragment F{} on {} {{ {} }}\n", depth, root_ty, leaf));
+                out.push(Input { family: format!("dag/diamonds-{}/{}/depth{}", if via_field { "through-a-field" } else { "at-one-level" }, kind, depth), schema, query: q });
+            }
+        }
+    }
+}
+
 fn odd_abstract_inputs(out: &mut Vec<Input>) {
     let cases = [
         ("interface-without-implementors", "interface I { x: Int }\ntype Query { i: I }", "query Q { i { __typename x } }"),
@@ -312,7 +340,7 @@ pub fn run(a: &Args) -> i32 {
     let mut rep = Report::new(
         "C17",
         a,
-        "adversarial (schema, query) texts: spread cycles of length 1..6 on objects / interfaces / unions, closed directly, through a field or through inline fragments, with and without __typename; lassos (a non-recursive fragment chain of length 1..3 leading into a spread cycle of length 1..3, on objects and interfaces, through fields or directly; two wrappers sharing one recursive fragment); input-type cycles incl. non-null and @oneOf; input-type lassos (the variable's type is off the cycle: chains of 1..3 input types into cycles of 1..3 through T / [T!] / T! edges); object-literal default values over recursive input types (partial, nested, with lists, omitting a required member of a required cycle); selection / type-expression / inline-fragment nesting to depth 64; empty, self-referential and ill-formed abstract types; duplicate definitions; broken syntax; each input runs in its own worker process (exit status / signal / 10 s timeout observed); non-trivial = the input contains a cycle or nesting depth >= 16",
+        "adversarial (schema, query) texts: spread cycles of length 1..6 on objects / interfaces / unions, closed directly, through a field or through inline fragments, with and without __typename; lassos (a non-recursive fragment chain of length 1..3 leading into a spread cycle of length 1..3, on objects and interfaces, through fields or directly; two wrappers sharing one recursive fragment); input-type cycles incl. non-null and @oneOf; input-type lassos (the variable's type is off the cycle: chains of 1..3 input types into cycles of 1..3 through T / [T!] / T! edges); object-literal default values over recursive input types (partial, nested, with lists, omitting a required member of a required cycle); selection / type-expression / inline-fragment nesting to depth 64; acyclic chains of 12 and 40 diamonds of shared fragments (2^depth spread paths over 3*depth+1 fragments) in queries, mutations and subscriptions, spread at one level or below a field; empty, self-referential and ill-formed abstract types; duplicate definitions; broken syntax; the built `graphql-client generate` on a 1600-field document with and without the rustfmt pass; each input runs in its own worker process (exit status / signal / 10 s timeout observed); non-trivial = the input contains a cycle or nesting depth >= 16",
     );
     let mut rng = Rng::new(a.seed);
     let mut inputs = Vec::new();
@@ -321,6 +349,7 @@ pub fn run(a: &Args) -> i32 {
     input_cycle_inputs(&mut inputs);
     input_lasso_inputs(&mut inputs);
     depth_inputs(&mut inputs);
+    dag_inputs(&mut inputs);
     odd_abstract_inputs(&mut inputs);
     broken_inputs(&mut rng, &mut inputs);
     if rep.thorough() {
@@ -338,7 +367,7 @@ pub fn run(a: &Args) -> i32 {
         std::fs::write(&sp, &inp.schema).unwrap();
         std::fs::write(&qp, &inp.query).unwrap();
         let (kind, out) = run_worker(&exe, &sp, &qp, Duration::from_secs(10));
-        let nontrivial = inp.family.contains("cycle") || inp.family.contains("lasso") || inp.family.contains("default-literal") || inp.family.contains("depth16") || inp.family.contains("depth32") || inp.family.contains("depth64");
+        let nontrivial = inp.family.contains("cycle") || inp.family.contains("lasso") || inp.family.contains("dag/") || inp.family.contains("default-literal") || inp.family.contains("depth16") || inp.family.contains("depth32") || inp.family.contains("depth64");
         let case_key = format!("{}\n{}", inp.schema, inp.query);
         rep.case(if nontrivial { Some(&case_key) } else { None });
         let fam = inp.family.split('/').take(2).collect::<Vec<_>>().join("/");
@@ -359,6 +388,54 @@ pub fn run(a: &Args) -> i32 {
                 rep.traces_validated += 1;
             }
         }
+    }
+    // the command-line delivery form on a large document, with and without the rustfmt pass (the formatted text is well
+    // beyond a pipe buffer): it has to end, too
+    let cli = std::path::PathBuf::from(std::env::var("CARGO_TARGET_DIR").unwrap_or_else(|_| "/verif/.work/target".into())).join("debug").join("graphql-client");
+    if cli.exists() {
+        let n_fields = 1600;
+        let schema = format!("type Query {{\n{}}}\n", (0..n_fields).map(|k| format!("  field{}: Int\n", k)).collect::<String>());
+        let query = format!("query Big {{\n{}}}\n", (0..n_fields).map(|k| format!("  field{}\n", k)).collect::<String>());
+        let dir = work.join("cli");
+        let _ = std::fs::create_dir_all(&dir);
+        std::fs::write(dir.join("schema.graphql"), &schema).unwrap();
+        std::fs::write(dir.join("big.graphql"), &query).unwrap();
+        for no_formatting in [false, true] {
+            let mut cmd = std::process::Command::new(&cli);
+            cmd.arg("generate").arg("--schema-path").arg("schema.graphql").arg("big.graphql").current_dir(&dir)
+                .stdin(std::process::Stdio::null()).stdout(std::process::Stdio::null()).stderr(std::process::Stdio::null());
+            if no_formatting {
+                cmd.arg("--no-formatting");
+            }
+            let fam = format!("cli/large-document/{}", if no_formatting { "no-formatting" } else { "rustfmt" });
+            rep.case(Some(&fam));
+            rep.count("family:cli/large-document");
+            match cmd.spawn() {
+                Err(e) => rep.internal.push(format!("cannot run {}: {}", cli.display(), e)),
+                Ok(mut child) => {
+                    let start = std::time::Instant::now();
+                    let outcome = loop {
+                        match child.try_wait() {
+                            Ok(Some(st)) => break if st.code().is_some() { "exit" } else { "signal" },
+                            Ok(None) if start.elapsed() > Duration::from_secs(60) => {
+                                let _ = child.kill();
+                                let _ = child.wait();
+                                break "timeout";
+                            }
+                            Ok(None) => std::thread::sleep(Duration::from_millis(20)),
+                            Err(_) => break "signal",
+                        }
+                    };
+                    rep.count(&format!("outcome:cli-{}", outcome));
+                    if outcome != "exit" {
+                        rep.fail("unclean-termination:cli/large-document", json!({"family": fam, "observed": outcome, "fields": n_fields,
+                            "command": format!("graphql-client generate --schema-path schema.graphql big.graphql{}", if no_formatting { " --no-formatting" } else { "" })}));
+                    }
+                }
+            }
+        }
+    } else {
+        rep.count("cli-binary-not-built");
     }
     let _ = std::fs::remove_dir_all(&work);
     rep.finish()
